@@ -798,6 +798,29 @@ func runReal(c *Case) (g Got, then *Got, harness error) {
 	before := kit.DeepCopy(change)
 	g, diff := invoke(change, ds, opts)
 	g.InputModified = !reflect.DeepEqual(before, change)
+	// a diff of its own for the caller to write into: an element appended to every old / new
+	// list of it (the lists are the caller's) must not reach the datasource or the next call
+	if _, dx := invoke(change, ds, opts); dx != nil {
+		for i := range dx.Actions {
+			for _, o := range []*osm.OSM{dx.Actions[i].Old, dx.Actions[i].New} {
+				if o == nil {
+					continue
+				}
+				if len(o.Nodes) > 0 {
+					o.Nodes = append(o.Nodes, &osm.Node{ID: -9, Version: 99, Visible: true})
+				}
+				if len(o.Ways) > 0 {
+					o.Ways = append(o.Ways, &osm.Way{ID: -9, Version: 99, Visible: true})
+				}
+				if len(o.Relations) > 0 {
+					o.Relations = append(o.Relations, &osm.Relation{ID: -9, Version: 99, Visible: true})
+				}
+			}
+		}
+		if !reflect.DeepEqual(before, change) {
+			g.InputModified = true
+		}
+	}
 	g2, _ := invoke(change, ds, opts)
 	switch {
 	case g2.Panic != g.Panic:
